@@ -51,6 +51,11 @@ class Geom:
         self.w = [f[1:] - f[:-1] for f in self.faces]
         self.wfull = [np.concatenate([[w[0]], w, [w[-1]]]) for w in self.w]
 
+    def cond(self):
+        """how badly differences of face positions are conditioned: max |face| / min width over all axes (1e2 on ordinary grids,
+        1e8 for a unit box at x = 1e6 with 1e-2 cells): rounding of any geometry expression is at least eps * cond()"""
+        return float(max(float(np.max(np.abs(f))) / float(np.min(w)) for f, w in zip(self.faces, self.w)))
+
     # ---- shapes
     def face_shape(self, k):
         s = list(self.dims)
